@@ -2,18 +2,21 @@
 EXTENDS WbIcContract, Json, IOUtils, GraphLookup
 G == JsonDeserialize(IOEnv.GRAPH)
 NDuts == Len(G.duts)
-VARIABLES d, s
-vars == <<d, s, open, incyc, served, waitc, owner, age, ageu, tofired, seen, obs>>
+VARIABLES d, s,
+          ph   \* toggles on a step that changes nothing else: a hung implementation (fixpoint of the product)
+               \* must be an infinite NON-stuttering behaviour, or WF_vars(Next) would let TLC walk away from it
+vars == <<d, s, open, incyc, served, waitc, owner, age, ageu, tofired, seen, obs, ph>>
 C == G.duts[d].cfg
-Init == /\ d \in 1..NDuts /\ s = 0 /\ CInit
+Init == /\ d \in 1..NDuts /\ s = 0 /\ ph = 0 /\ CInit
 Step(iv) ==
   /\ s >= 0
   /\ LET e == GLookup(G.duts[d].succ[s + 1], iv) IN
        IF e # <<>>
        THEN /\ s' = e[3] /\ d' = d
             /\ CStep(C, iv, e[2])
+            /\ ph' = IF e[3] = s /\ cvars' = cvars THEN 1 - ph ELSE 0
        ELSE /\ PrintT(<<"NEED", d, s, iv>>)
-            /\ s' = -1 /\ d' = d /\ UNCHANGED cvars
+            /\ s' = -1 /\ d' = d /\ ph' = 0 /\ UNCHANGED cvars
 Next == \E iv \in Inputs(C) : Step(iv)
 Spec == Init /\ [][Next]_vars /\ WF_vars(Next)
 Alias == [d |-> d, s |-> s, obs |-> obs, open |-> open, waitc |-> waitc, age |-> age,
